@@ -146,3 +146,119 @@ pub fn write_opt<T: lexical_core::ToLexicalWithOptions + Copy, const FORMAT: u12
     let buf = arena.output(len, place, 0x5a);
     catch(|| lexical_core::write_with_options::<T, FORMAT>(v, buf, opts).to_vec())
 }
+
+/// The 12 integer types behind one interface (value as sign + u128 magnitude).
+pub trait LInt:
+    Copy
+    + Send
+    + PartialEq
+    + std::fmt::Debug
+    + std::fmt::Display
+    + 'static
+    + lexical_core::FromLexical
+    + lexical_core::FromLexicalWithOptions<Options = lexical_core::ParseIntegerOptions>
+    + lexical_core::ToLexical
+    + lexical_core::ToLexicalWithOptions<Options = lexical_core::WriteIntegerOptions>
+    + lexical_core::FormattedSize
+{
+    const NAME: &'static str;
+    const BITS: u32;
+    const SIGNED: bool;
+    /// (negative, magnitude)
+    fn split(self) -> (bool, u128);
+    /// exact construction, None if it does not fit
+    fn join(neg: bool, mag: u128) -> Option<Self>;
+    /// truncating cast (for random generation)
+    fn wrap(x: u128) -> Self;
+    fn max_mag(neg: bool) -> u128 {
+        if Self::SIGNED {
+            if neg {
+                1u128 << (Self::BITS - 1)
+            } else {
+                (1u128 << (Self::BITS - 1)) - 1
+            }
+        } else if neg {
+            0
+        } else if Self::BITS == 128 {
+            u128::MAX
+        } else {
+            (1u128 << Self::BITS) - 1
+        }
+    }
+}
+macro_rules! lint_unsigned {
+    ($($t:ty)*) => {$(
+        impl LInt for $t {
+            const NAME: &'static str = stringify!($t);
+            const BITS: u32 = <$t>::BITS;
+            const SIGNED: bool = false;
+            fn split(self) -> (bool, u128) { (false, self as u128) }
+            fn join(neg: bool, mag: u128) -> Option<Self> {
+                if neg && mag != 0 { return None; }
+                <$t>::try_from(mag).ok()
+            }
+            fn wrap(x: u128) -> Self { x as $t }
+        }
+    )*};
+}
+macro_rules! lint_signed {
+    ($($t:ty)*) => {$(
+        impl LInt for $t {
+            const NAME: &'static str = stringify!($t);
+            const BITS: u32 = <$t>::BITS;
+            const SIGNED: bool = true;
+            fn split(self) -> (bool, u128) { (self < 0, self.unsigned_abs() as u128) }
+            fn join(neg: bool, mag: u128) -> Option<Self> {
+                if mag > Self::max_mag(neg) { return None; }
+                if neg {
+                    // -(mag) computed without overflow
+                    Some((mag as $t).wrapping_neg())
+                } else {
+                    Some(mag as $t)
+                }
+            }
+            fn wrap(x: u128) -> Self { x as $t }
+        }
+    )*};
+}
+lint_unsigned! { u8 u16 u32 u64 u128 usize }
+lint_signed! { i8 i16 i32 i64 i128 isize }
+
+/// `for_int_types!(mac)` calls `mac!(type)` for each of the 12 integer types
+#[macro_export]
+macro_rules! for_int_types {
+    ($m:ident) => {
+        $m!(u8);
+        $m!(u16);
+        $m!(u32);
+        $m!(u64);
+        $m!(u128);
+        $m!(usize);
+        $m!(i8);
+        $m!(i16);
+        $m!(i32);
+        $m!(i64);
+        $m!(i128);
+        $m!(isize);
+    };
+}
+
+/// reference numeral: canonical positional representation, digits 0-9A-Z
+pub fn ref_numeral(neg: bool, mut mag: u128, radix: u32, plus: bool) -> Vec<u8> {
+    let mut d = Vec::new();
+    if mag == 0 {
+        d.push(b'0');
+    }
+    while mag != 0 {
+        let r = (mag % radix as u128) as u8;
+        d.push(if r < 10 { b'0' + r } else { b'A' + r - 10 });
+        mag /= radix as u128;
+    }
+    if neg {
+        d.push(b'-');
+    } else if plus {
+        d.push(b'+');
+    }
+    d.reverse();
+    d
+}
